@@ -7,6 +7,7 @@
      D.<c>        disconnect      T.<d>   d ms pass
      R.<c>.<serial>.<name>.<flags>   RequestName (bit0 allow_replacement, bit1 replace_existing, bit2 do_not_queue)
      L.<c>.<serial>.<name>           ReleaseName
+     B.<c>   c stops reading and its queue at the bus is driven over max_outgoing_bytes      U.<c>   c reads again
      M.<c>.<serial>.<eavesdrop 0|1>.<type c|r|e|s|x>.<sender u<k>|n<k>|x>.<destination u<k>|n<k>|x>   AddMatch
    result: per step "-" (no output), "!" (ill-formed event) or outputs joined by "+":
      <rcpt>:F.<from>.<token>   <rcpt>:E.<error>.<reply_serial>   <rcpt>:D.<reply_serial>.<code> *)
@@ -39,6 +40,8 @@ let parse_event (tok : string) : event =
   | ["R"; c; s; n; f] -> let f = int_of_string f in
       ERequestName (ni c, ni s, ni n, f land 1 <> 0, f land 2 <> 0, f land 4 <> 0)
   | ["L"; c; s; n] -> EReleaseName (ni c, ni s, ni n)
+  | ["B"; c] -> EBlock (ni c)
+  | ["U"; c] -> EDrain (ni c)
   | ["M"; c; s; ev; ty; sd; ds] ->
       let od x = if x = "x" then None else
         let k = ni (String.sub x 1 (String.length x - 1)) in
@@ -140,7 +143,8 @@ let run_oracle (args : string list) : string =
                                         List.filter (fun (_, x) -> match x with OFwd _ -> true | _ -> false) cls @
                                         List.filter (fun (_, x) -> match x with OFwd _ -> false | _ -> true) cls
                                     | None -> o) in
-                           let c = int_of_n (oracle_step cf !tr owner eaves e o) in
+                           let full = (match owner with Some w -> is_full !st w | None -> false) in
+                           let c = int_of_n (oracle_step cf !tr owner eaves full e o) in
                            let detail =
                              if c = 4 then begin
                                let pr l = String.concat "," (List.map (fun (a, s) -> Printf.sprintf "%d.%d" (int_of_n a) (int_of_n s)) l) in
